@@ -278,6 +278,86 @@ impl Check for Diagnostics {
     }
 }
 
+/// Process level: ill-typed programs of many different error kinds (the single-site mutants of the
+/// System-F / F-omega universe that the reference checker rejects), each checked by the real binary under several hash
+/// seeds; exit status and output must be identical. (An in-process variant was a false alarm: identifiers
+/// derived from the process-wide key-space counter, and the order of reports keyed by them, depend on how many
+/// analyses the process has run before — which differs between successive analyses in one worker, not
+/// between process instances.)
+pub struct RejectedPrograms {
+    texts: Vec<String>,
+    seeds: u64,
+    chunk: usize,
+}
+impl RejectedPrograms {
+    pub fn new(tier: Tier) -> Self {
+        let stride = if tier == Tier::Thorough { 8 } else { 40 };
+        let mut texts = vec![];
+        let mut k = 0usize;
+        for p in crate::poly::universe(tier) {
+            for (_, m) in crate::poly::mutants(&p) {
+                if crate::poly::synth_c(&crate::poly::Scope::default(), &m).is_err() {
+                    if k % stride == 0 {
+                        texts.push(crate::poly::program(&m, false));
+                    }
+                    k += 1;
+                }
+            }
+        }
+        RejectedPrograms { texts, seeds: if tier == Tier::Thorough { 6 } else { 3 }, chunk: 8 }
+    }
+}
+impl Check for RejectedPrograms {
+    fn property(&self) -> &'static str {
+        "C16"
+    }
+    fn name(&self) -> String {
+        "c16-rejected-programs".into()
+    }
+    fn len(&self) -> usize {
+        self.texts.len().div_ceil(self.chunk)
+    }
+    fn describe(&self, i: usize) -> String {
+        format!("ill-typed programs #{}.. analysed under hash seeds 0..{}; first:\n{}", i * self.chunk, self.seeds, self.texts[i * self.chunk])
+    }
+    fn rule(&self) -> String {
+        format!("every {}th single-site mutant of the System-F / F-omega universe that the reference checker rejects ({} programs: wrong variable, wrong type argument, wrong annotation, wrong package witness, escaping abstract type), each checked by the real zydeco binary, one fresh process per (program, hash seed 0..{}) under the getrandom interposer; oracle: exit status, stdout and stderr byte-identical across instances; non-trivial = every chunk", if self.seeds > 3 { 8 } else { 40 }, self.texts.len(), self.seeds)
+    }
+    fn run(&mut self, i: usize) -> CaseResult {
+        let a = i * self.chunk;
+        let b = (a + self.chunk).min(self.texts.len());
+        let mut r = CaseResult::ok("chunk").nontrivial(true).key(i as u64);
+        let bin = verif_root().join("target/debug/zydeco");
+        let scratch = Scratch::new("c16r");
+        for text in &self.texts[a..b] {
+            let _ = scratch.write("main.zydeco", text);
+            let args = vec!["check".to_string(), "main.zydeco".to_string()];
+            let mut first: Option<(Vec<u8>, Vec<u8>, Option<i32>)> = None;
+            for seed in 0..self.seeds {
+                r = r.count("processes", 1);
+                match run_once(&bin, &args, seed * 17 + 3, false, &scratch.dir) {
+                    | None => {
+                        r = r.violation("MACHINERY: the zydeco process could not be run".to_string(), text.clone());
+                        break;
+                    }
+                    | Some(o) => match &first {
+                        | None => first = Some(o),
+                        | Some(f) if *f != o => {
+                            let fa = String::from_utf8_lossy(&f.1).to_string();
+                            let fb = String::from_utf8_lossy(&o.1).to_string();
+                            let line = fa.lines().zip(fb.lines()).position(|(x, y)| x != y).unwrap_or(0);
+                            r = r.violation("diagnostics of an ill-typed program differ between process instances", format!("seed 0 vs seed {}: exit {:?} vs {:?}; first differing stderr line {}:\n  {:?}\n  {:?}\n{}", seed, f.2, o.2, line + 1, fa.lines().nth(line), fb.lines().nth(line), text));
+                            break;
+                        }
+                        | _ => {}
+                    },
+                }
+            }
+        }
+        r
+    }
+}
+
 pub fn checks(tier: Tier) -> Vec<Box<dyn Check>> {
-    vec![Box::new(Determinism::new(tier)), Box::new(Diagnostics::new(tier))]
+    vec![Box::new(Determinism::new(tier)), Box::new(Diagnostics::new(tier)), Box::new(RejectedPrograms::new(tier))]
 }
